@@ -120,6 +120,20 @@ if THEOREMS.get("C03"):
 
 # a property is claimed in MANIFEST.json only once its theorem file exists
 _ALL_MANIFEST = MANIFEST
+# round 2 (DESIGN §13): sentences appended to the level texts so that the manifest names what was added
+_R2 = {
+    "C03": " Round 2: trace-level forms over every run (C03_exactly_once_trace, C03_whole_run_count, C03_exactly_once_after_drain, C03_final_acceptance), read-loop fuel proved sufficient up to 63 operations injected at site 3 (exact), the unbounded-queue machine carries conservation / queue coherence / emptiness-test soundness for every operation list (C03U_*), mixed queue types per process (C08Mixed stream).",
+    "C05": " Round 2: order of the observable write events (C05_write_order, _at_sink, _pairs), aborted polls of the fault layer (C05_aborted_poll_is_the_pass, witness for catch-and-continue), TSC clock model and stream (C05Tsc_*: monotone between resyncs, exact shift and inversion bounds across a resync; finding F38 listed as known).",
+    "C06": " Round 2: sink_min_flush_interval is inside the model (flushGate, preEraseFlush); the contract holds for every interval (finding F33 repaired, flag flushBeforeLoggerErase extracted); progress under arbitrary concurrent frontend activity with the exact characterisation C06_poll_pops_unless_batch_guard (starvation F34 listed as known); tie behaviour at equal timestamps stated with two decide witnesses; unregistered (make_shared) sinks in H2.",
+    "C08": " Round 2: the ghost counter tied to the counts printed in the notifier events over every run (C08_reported_is_notified, C08_accounting_on_log), trace-level ret=0 iff discarded and attempted = delivered + discarded + pending (Props/C08Trace.lean), mixed queue types per process (C08Mixed_accounting, h2_mixed stream).",
+    "C10": " Round 2: backtrace replays are inside the delivery claims (finding F26 repaired; C10_replay_*, C10_backtrace_at_most_once_per_flush, C10_log_at_most_once_any_level), every sink fault reported exactly once over every run (C10_write_faults_reported_once, C10_flush_faults_reported_once), fault kinds / failing override patterns / aborted polls (fault layer, bundle Y: C10_pattern_fault_local, C10_fault_reported_kind), formatter exceptions in the backend model (Cfg.fmtFaults, C10_fmt_*; repaired catch only).",
+    "C16": " Round 2: a sink whose override pattern cannot be built costs only itself and the sinks after it (C16_rejecting_sink_absent, C10_pattern_fault_local); the acceptance oracle follows run-time changes of a sink's level filter.",
+    "C17": " Round 2: destroyed iff unreferenced with exactly one destructor event (C17_sink_destroyed_iff_unreferenced), remove_logger_blocking contract without an example-only link (C17_remove_blocking_contract, C17_parked_flag_has_record), logger registry bundle on the real LoggerManager (C17_logreg_*), removal flags served exactly (C17_cleanup_serves_erased).",
+    "C20": " Round 2: shrink theorems (C20_shrink_reported_capacity, C20_shrink_loses_nothing), emptiness test sound along every run of the unbounded-queue machine (C20U_empty_test_sound_run), exit drain of that machine (C07U_exit_leaves_only_drained).",
+}
+for _p, _t in _R2.items():
+    if _p in _ALL_MANIFEST and _t not in _ALL_MANIFEST[_p].get("text", ""):
+        _ALL_MANIFEST[_p]["text"] = _ALL_MANIFEST[_p].get("text", "") + _t
 MANIFEST = {p: d for p, d in _ALL_MANIFEST.items() if THEOREMS.get(p)}
 
 # the unbounded builds (512-byte initial node, 4 KiB maximum: growth, switches, shrink requests, over-max records) are
